@@ -207,7 +207,7 @@ theorem C19_render_prefix (unicode : Bool) (msg : List Char) (loc : RenderLoc) :
 example : ∃ rest, render false ['x'] ⟨['f'], ['a', ' ', '{'], 0, 2, 0, 3⟩ = errorPrefix ++ ['x'] ++ ['\n'] ++ rest :=
   C19_render_prefix _ _ _
 
-/-- **Paddings and the caret count are well-defined naturals**: the subtraction at error.rs:160
+/-- **Paddings and the caret count are well-defined naturals**: the subtraction at error.rs:164
     never underflows (`min ≤ max`), the caret count is the distance between the two columns
     whichever is larger (also for spans that end on an earlier column of a later line), and the
     padding is one space per decimal digit of the line number plus one — at least two. -/
